@@ -37,7 +37,7 @@ import (
 )
 
 func main() {
-	vh.Main(vh.Commands{"replay": c15Replay, "trace": c15Trace, "cli": c15Cli, "phase": c15Phase})
+	vh.Main(vh.Commands{"replay": c15Replay, "trace": c15Trace, "cli": c15Cli, "phase": c15Phase, "burst": c15Burst})
 }
 
 type M = vh.M
@@ -46,6 +46,9 @@ var B = vh.B
 
 type step struct {
 	Op     string `json:"op"`
+	What   string `json:"what,omitempty"` // other: create | append | remove | rename
+	Name   string `json:"name,omitempty"` // other: sibling name class (suf | pre | oth)
+	To     string `json:"to,omitempty"`   // other/rename: the class of the new name
 	Data   []int  `json:"data,omitempty"`
 	Expect []int  `json:"expect,omitempty"`
 	Eof    bool   `json:"eof,omitempty"`
@@ -57,6 +60,7 @@ type vector struct {
 	Reopen bool   `json:"reopen"`
 	Tail   bool   `json:"tail"`
 	Init   []int  `json:"init"`
+	Sibs   []string `json:"sibs,omitempty"` // sibling name classes that exist when following starts
 	Steps  []step `json:"steps"`
 }
 
@@ -85,7 +89,7 @@ type execution struct {
 	v        vector
 	tm       timing
 	bufSize  int
-	dir      string
+	pl       *place
 	path     string
 	r        followreader.FollowReader
 	permit   chan struct{}
@@ -109,15 +113,12 @@ type outcome struct {
 
 func (e *execution) log(m M) { e.events = append(e.events, m) }
 
-func newExecution(v vector, tm timing, bufSize int, base string) (*execution, error) {
-	dir, err := os.MkdirTemp(base, "h")
+func newExecution(v vector, tm timing, bufSize int, base, kind string, rng *rand.Rand) (*execution, error) {
+	pl, err := newPlace(base, kind, rng, vh.FromInts(v.Init), v.Sibs)
 	if err != nil {
 		return nil, err
 	}
-	e := &execution{v: v, tm: tm, bufSize: bufSize, dir: dir, path: filepath.Join(dir, "followed.log")}
-	if err := os.WriteFile(e.path, vh.FromInts(v.Init), 0o644); err != nil {
-		return nil, err
-	}
+	e := &execution{v: v, tm: tm, bufSize: bufSize, pl: pl, path: pl.path}
 	e.exists = true
 	e.written = len(v.Init)
 	r, err := followreader.New(e.path, v.Reopen, v.Poll)
@@ -175,7 +176,7 @@ func isPrefix(p, s []byte) bool {
 }
 
 func (e *execution) appendBytes(b []byte) error {
-	f, err := os.OpenFile(e.path, os.O_APPEND|os.O_WRONLY, 0o644)
+	f, err := os.OpenFile(e.pl.real, os.O_APPEND|os.O_WRONLY, 0o644)
 	if err != nil {
 		return err
 	}
@@ -188,7 +189,7 @@ func (e *execution) appendBytes(b []byte) error {
 }
 
 func (e *execution) createFile() error {
-	f, err := os.OpenFile(e.path, os.O_CREATE|os.O_EXCL|os.O_WRONLY, 0o644)
+	f, err := os.OpenFile(e.pl.real, os.O_CREATE|os.O_EXCL|os.O_WRONLY, 0o644)
 	if err != nil {
 		return err
 	}
@@ -200,7 +201,7 @@ func (e *execution) finish() {
 	if e.inflight && !e.ended {
 		kick := make([]byte, 4096+e.written)
 		if !e.exists {
-			os.WriteFile(e.path, kick, 0o644)
+			os.WriteFile(e.pl.real, kick, 0o644)
 		} else {
 			e.appendBytes(kick)
 		}
@@ -211,12 +212,12 @@ func (e *execution) finish() {
 	}
 	e.r.Close()
 	close(e.permit)
-	os.RemoveAll(e.dir)
+	os.RemoveAll(e.pl.dir)
 }
 
 // run executes the history; the first disagreement with the specification's expectation ends it.
 func (e *execution) run() (out outcome, infra error) {
-	e.log(M{"event": "reset", "poll": e.v.Poll, "reopen": e.v.Reopen, "tail": e.v.Tail, "init": e.v.Init})
+	e.log(M{"event": "reset", "poll": e.v.Poll, "reopen": e.v.Reopen, "tail": e.v.Tail, "init": e.v.Init, "path": e.pl.kind})
 	var since []string
 	placement := "idle"
 	lastEofok := false
@@ -238,11 +239,17 @@ func (e *execution) run() (out outcome, infra error) {
 			since = append(since, "append")
 		case "remove":
 			e.log(M{"event": "remove"})
-			if err := os.Remove(e.path); err != nil {
+			if err := os.Remove(e.pl.real); err != nil {
 				return out, err
 			}
 			e.exists = false
 			since = append(since, "remove")
+		case "other":
+			e.log(M{"event": "other", "what": st.What, "name": st.Name})
+			if err := e.pl.other(st.What, st.Name, st.To); err != nil {
+				return out, err
+			}
+			since = append(since, "other-"+st.What+"-"+st.Name)
 		case "create":
 			e.log(M{"event": "create"})
 			if err := e.createFile(); err != nil {
@@ -359,10 +366,23 @@ func modeName(v vector) string {
 }
 
 type job struct {
-	idx int
-	v   vector
-	raw json.RawMessage
-	rep int
+	idx  int
+	v    vector
+	raw  json.RawMessage
+	rep  int
+	kind string // file | link-same | link-other
+}
+
+// the kind of path an execution follows: the first execution of a history the file's own name, the
+// others a symbolic link to it
+func kindFor(idx, rep int) string {
+	if rep%2 == 0 {
+		return "file"
+	}
+	if (idx+rep/2)%2 == 0 {
+		return "link-same"
+	}
+	return "link-other"
 }
 
 type jobResult struct {
@@ -383,7 +403,10 @@ func execute(j job, tm timing, base string) jobResult {
 	if total > 60 && buf < 16 {
 		buf = 16 + rng.Intn(64)
 	}
-	e, err := newExecution(j.v, tm, buf, base)
+	if j.kind == "" {
+		j.kind = kindFor(j.idx, j.rep)
+	}
+	e, err := newExecution(j.v, tm, buf, base, j.kind, rng)
 	if err != nil {
 		return jobResult{job: j, infra: err}
 	}
@@ -463,6 +486,11 @@ func c15Replay(args []string) error {
 	}
 	agg := map[key]*mismatch{}
 	runsPer := map[int]int{}
+	for i := range results {
+		if results[i].job.kind == "" {
+			results[i].job.kind = kindFor(results[i].job.idx, results[i].job.rep)
+		}
+	}
 	w, err := vh.NewNdWriter(*trace)
 	if err != nil {
 		return err
@@ -497,7 +525,7 @@ func c15Replay(args []string) error {
 			classes[cl] = true
 			chosen[r.job.idx] = true
 			for k := 0; k < 4; k++ {
-				rj = append(rj, job{idx: r.job.idx, v: r.job.v, raw: r.job.raw, rep: 1000 + k})
+				rj = append(rj, job{idx: r.job.idx, v: r.job.v, raw: r.job.raw, rep: 1000 + k, kind: r.job.kind})
 			}
 		}
 	}
@@ -520,9 +548,9 @@ func c15Replay(args []string) error {
 		}
 		emit(r)
 		if r.out.Kind != "" {
-			k := key{r.job.idx, r.out.Kind}
+			k := key{r.job.idx, r.out.Kind + "/" + r.job.kind}
 			if agg[k] == nil {
-				agg[k] = &mismatch{Vector: r.job.raw, Mode: modeName(r.job.v), Outcome: r.out, Buf: r.buf}
+				agg[k] = &mismatch{Vector: r.job.raw, Mode: modeName(r.job.v) + ":" + r.job.kind, Outcome: r.out, Buf: r.buf}
 			}
 			agg[k].Seen++
 		}
@@ -583,7 +611,42 @@ func randomHistory(r *rand.Rand, maxOps, big int) vector {
 		}
 	}
 	ended, stop := false, false
+	// siblings of the followed path (Follow!EnvOther): some exist from the start
+	has := map[string]bool{}
+	for _, c := range []string{"suf", "pre", "oth"} {
+		if r.Intn(2) == 0 {
+			v.Sibs = append(v.Sibs, c)
+			has[c] = true
+		}
+	}
 	for len(v.Steps) < nops && !ended && !stop {
+		if r.Intn(4) == 0 {
+			c := []string{"suf", "pre", "oth"}[r.Intn(3)]
+			st := step{Op: "other", Name: c, What: "create"}
+			if has[c] {
+				st.What = []string{"append", "remove", "rename"}[r.Intn(3)]
+			}
+			if st.What == "rename" {
+				for _, t := range []string{"suf", "pre", "oth"} {
+					if !has[t] {
+						st.To = t
+					}
+				}
+				if st.To == "" {
+					st.What = "remove"
+				}
+			}
+			switch st.What {
+			case "create":
+				has[c] = true
+			case "remove":
+				has[c] = false
+			case "rename":
+				has[c], has[st.To] = false, true
+			}
+			v.Steps = append(v.Steps, st)
+			continue
+		}
 		switch k := r.Intn(10); {
 		case k < 4 && exists: // append
 			n := 1 + r.Intn(4)
@@ -684,7 +747,7 @@ func c15Trace(args []string) error {
 	for i := 0; i < *n; i++ {
 		v := randomHistory(r, *maxOps, *big)
 		raw, _ := json.Marshal(v)
-		jobs = append(jobs, job{idx: i, v: v, raw: raw})
+		jobs = append(jobs, job{idx: i, v: v, raw: raw, kind: []string{"file", "link-same", "link-other"}[i%3]})
 	}
 	first := tm
 	first.hangs = new(int32)
@@ -706,7 +769,7 @@ func c15Trace(args []string) error {
 			var ok *jobResult
 			var rj []job
 			for k := 0; k < 4; k++ {
-				rj = append(rj, job{idx: res.job.idx, v: res.job.v, raw: res.job.raw, rep: 1000 + k})
+				rj = append(rj, job{idx: res.job.idx, v: res.job.v, raw: res.job.raw, rep: 1000 + k, kind: res.job.kind})
 			}
 			for _, rr := range runJobs(rj, tm, 4, base) {
 				rr := rr
